@@ -80,6 +80,16 @@ fn dynamic_schema() -> dy::Schema {
     dy::Schema::build("Query", None, Some("Subscription")).register(ev).register(query).register(sub).finish().unwrap()
 }
 
+fn unalias(o: &mut J) {
+    let back = |k: &str| match k { "a1" => Some("s1"), "a2" => Some("s2"), _ => None };
+    if let Some(es) = o.pointer_mut("/data/entries").and_then(|x| x.as_array_mut()) {
+        for e in es { if let Some(n) = e.get("key").and_then(|k| k.as_str()).and_then(back) { e["key"] = json!(n); } }
+    }
+    if let Some(errs) = o.pointer_mut("/errors").and_then(|x| x.as_array_mut()) {
+        for e in errs { if let Some(first) = e.pointer_mut("/path/0") { if let Some(n) = first.as_str().and_then(back) { *first = json!(n); } } }
+    }
+}
+
 fn run(id: usize, flavour: &str, doc: &str, sched: &[J]) -> J {
     let req = Req::new(json!({}));
     let (tx1, rx1) = futures_channel::mpsc::unbounded::<Ev>();
@@ -106,6 +116,8 @@ fn run(id: usize, flavour: &str, doc: &str, sched: &[J]) -> J {
                 Poll::Ready(Some(r)) => {
                     let mut o = resp::response(&r);
                     o.as_object_mut().unwrap().remove("cache"); o.as_object_mut().unwrap().remove("extensions");
+                    // documents that alias the root fields (a1: s1, a2: s2): response keys are renamed back (a bijection)
+                    unalias(&mut o);
                     events.push(json!({"ev": "resp", "f": "", "kind": "", "id": 0, "resp": o}));
                 }
             }
